@@ -398,4 +398,101 @@ def mon_C03(run):
     return bad[:1]
 
 
-MONITORS = {"C03": mon_C03, "C10": mon_C10, "C01": mon_C01, "C02": mon_C02, "C11": mon_C11}
+def mon_C09(run):
+    """retain exact; take hands over / shrinks / frees the slot; detach exactly once for
+    every object the live pool lets go of, never for one that stays"""
+    bad = object_history_violations(run)
+    if bad:
+        return bad[:1]
+    detached, gone = {}, {}
+    prev = None
+    for row in run.rows:
+        if row is None:
+            continue
+        k, d = row["k"], row["obs"]
+        preds = []
+        for e in row["ev"]:
+            name, args = ev_args(e)
+            if name == "detach":
+                detached[args[1]] = detached.get(args[1], 0) + 1
+            elif name == "destroy":
+                gone[args[0]] = "destroyed"
+                if detached.get(args[0], 0) != 1:
+                    bad.append((k, f"object {args[0]} was destroyed by the live pool after {detached.get(args[0], 0)} detach calls"))
+            elif name == "taken":
+                gone[args[1]] = "taken"
+                if detached.get(args[1], 0) != 1:
+                    bad.append((k, f"object {args[1]} was taken after {detached.get(args[1], 0)} detach calls"))
+            elif name == "pred":
+                preds.append((args[2].split(":")[0], args[-1] == "1", args[2]))
+            elif name == "retained":
+                e_full = e
+                kept_n = int(args[1])
+                removed = [x for x in e_full[e_full.index("[") + 1:e_full.rindex("]")].split(",") if x]
+                want_removed = [oid for oid, keep, _ in preds if not keep]
+                want_kept = [full for oid, keep, full in preds if keep]
+                if removed != want_removed or kept_n != len(want_kept):
+                    bad.append((k, f"retain returned retained={kept_n} removed={removed}, predicate said keep={[o for o,kp,_ in preds if kp]} drop={want_removed}"))
+                for oid in removed:
+                    gone[oid] = "retained-out"
+                    if detached.get(oid, 0) != 1:
+                        bad.append((k, f"object {oid} removed by retain after {detached.get(oid, 0)} detach calls"))
+                if prev is not None and prev["idle"] is not None and row["idle"] is not None:
+                    if [x for x, _, _ in preds] != [x.split(":")[0] for x in prev["idle"]]:
+                        bad.append((k, f"retain's predicate saw {[x for x,_,_ in preds]} but the idle queue was {prev['idle']}"))
+                    if row["idle"] != want_kept:
+                        bad.append((k, f"idle queue after retain is {row['idle']}, expected {want_kept}"))
+                    po = prev["obs"]
+                    for c in ("permits", "closed", "users", "out", "max"):
+                        if po[c] != d[c]:
+                            bad.append((k, f"retain changed {c}: {po[c]} -> {d[c]}"))
+                    if po["size"] != "?" and int(po["size"]) - int(d["size"]) != len(removed):
+                        bad.append((k, f"retain removed {len(removed)} objects but size went {po['size']} -> {d['size']}"))
+        # objects still in the pool were never detached
+        for x in (row["idle"] or []):
+            if detached.get(x.split(":")[0], 0):
+                bad.append((k, f"idle object {x} has been detached"))
+        for x in row["out"]:
+            if detached.get(x, 0):
+                bad.append((k, f"checked-out object {x} has been detached"))
+        prev = row
+        if bad:
+            return bad[:1]
+    # take: solo segments
+    rows = run.rows
+    for k, row in enumerate(rows):
+        if row is None or not row["action"].startswith("start take") or k == 0 or rows[k - 1] is None:
+            continue
+        i = row["op"]
+        j = k + 1
+        solo = True
+        while j < len(rows) and rows[j] is not None:
+            a = rows[j]["action"].split()
+            if a[0] != "step" or int(a[1]) != i:
+                solo = False
+                break
+            if rows[j]["obs"]["lbl"] == "done":
+                break
+            j += 1
+        if not solo or j >= len(rows) or rows[j] is None or rows[j]["obs"]["lbl"] != "done":
+            continue
+        b, a_ = rows[k - 1]["obs"], rows[j]["obs"]
+        if b["size"] == "?" or a_["size"] == "?":
+            continue
+        oid = run.ops[i]["obj"]
+        if int(b["size"]) - int(a_["size"]) != 1:
+            bad.append((rows[j]["k"], f"take of object {oid}: size went {b['size']} -> {a_['size']}"))
+        if int(b["users"]) - int(a_["users"]) != 1:
+            bad.append((rows[j]["k"], f"take of object {oid}: users went {b['users']} -> {a_['users']}"))
+        if int(b["size"]) <= int(b["max"]) and b["closed"] == "0":
+            woken_new = len(parse_list(a_["woken"]) or []) - len(parse_list(b["woken"]) or [])
+            if int(a_["permits"]) + woken_new - int(b["permits"]) != 1:
+                bad.append((rows[j]["k"], f"take of object {oid} did not free its slot: permits {b['permits']} -> {a_['permits']}, newly woken {woken_new}"))
+        if oid in (parse_list(a_["live"]) or []):
+            bad.append((rows[j]["k"], f"taken object {oid} still counted as the pool's"))
+        if bad:
+            return bad[:1]
+    return bad[:1]
+
+
+MONITORS = {"C09": mon_C09, "C03": mon_C03, "C10": mon_C10, "C01": mon_C01, "C02": mon_C02, "C11": mon_C11}
